@@ -13,11 +13,11 @@ use serde_json::{json, Value};
 use std::sync::Arc;
 
 /// Boundaries (end positions) in S coordinates (only those inside S, > 0).
-fn s_boundaries(cfg: &Cfg, prefix: &[u8], s: &[u8]) -> Result<Vec<usize>, String> {
+fn s_boundaries(cfg: &Cfg, prefix: &[u8], s: &[u8], frag: FragPlan, pend: PendPlan) -> Result<Vec<usize>, String> {
     let mut data = prefix.to_vec();
     data.extend_from_slice(s);
     let data = Arc::new(data);
-    let obs = run_real(cfg, &data, FragPlan::All, PendPlan::Never);
+    let obs = run_real(cfg, &data, frag, pend);
     if let Some(p) = obs.panicked {
         return Err(format!("panic: {}", p));
     }
@@ -37,8 +37,25 @@ fn s_boundaries(cfg: &Cfg, prefix: &[u8], s: &[u8]) -> Result<Vec<usize>, String
 /// Returns Ok(Some(number of chunks after the sync point)) if a common boundary
 /// exists, Ok(None) if none, Err on violation.
 pub fn judge_pair(cfg: &Cfg, p1: &[u8], p2: &[u8], s: &[u8]) -> Result<Option<usize>, String> {
-    let b1 = s_boundaries(cfg, p1, s)?;
-    let b2 = s_boundaries(cfg, p2, s)?;
+    judge_pair_sched(cfg, p1, p2, s, 0)
+}
+
+/// `sched` != 0: the two streams are additionally delivered under two DIFFERENT read
+/// schedules (short reads of random size, Pending) derived from it — what precedes the
+/// common data includes how it happened to arrive.
+pub fn judge_pair_sched(cfg: &Cfg, p1: &[u8], p2: &[u8], s: &[u8], sched: u64) -> Result<Option<usize>, String> {
+    let plan = |k: u64| -> (FragPlan, PendPlan) {
+        if sched == 0 {
+            (FragPlan::All, PendPlan::Never)
+        } else {
+            let m = [3usize, 17, 64, 700][((sched >> (8 * k)) & 3) as usize];
+            (FragPlan::Random { seed: sched ^ (k + 1), max: m }, if (sched >> (4 + k)) & 1 == 1 { PendPlan::Every(3) } else { PendPlan::Never })
+        }
+    };
+    let (f1, q1) = plan(0);
+    let (f2, q2) = plan(1);
+    let b1 = s_boundaries(cfg, p1, s, f1, q1)?;
+    let b2 = s_boundaries(cfg, p2, s, f2, q2)?;
     let w = if cfg.algo == Algo::Fixed { 0 } else { cfg.window };
     let set2: std::collections::BTreeSet<usize> = b2.iter().copied().collect();
     // The final boundary (end of S) is common by construction but nothing follows it.
@@ -179,7 +196,8 @@ pub fn run(tier: Tier, seed: u64) -> i32 {
             let f5 = i % 5 == 4;
             let pair = gen_pair(&mut rng, f5);
             evals += 1;
-            match judge_pair(&pair.cfg, &pair.p1, &pair.p2, &pair.s) {
+            let sched = if i % 2 == 1 { rng.next_u64() | 1 } else { 0 };
+            match judge_pair_sched(&pair.cfg, &pair.p1, &pair.p2, &pair.s, sched) {
                 Ok(Some(after)) => {
                     with_sync += 1;
                     if after >= 2 {
@@ -193,7 +211,7 @@ pub fn run(tier: Tier, seed: u64) -> i32 {
                         viol.push((
                             format!("c10/{:?}/{}", pair.cfg.algo, why.split(',').next().unwrap_or("").chars().filter(|c| !c.is_ascii_digit()).take(40).collect::<String>()),
                             json!({"why": why, "cfg": pair.cfg.describe(), "p1_len": pair.p1.len(), "p2_len": pair.p2.len(), "s_len": pair.s.len()}),
-                            json!({"cfg": cfg_json(&pair.cfg), "p1": hex(&pair.p1), "p2": hex(&pair.p2), "s": hex(&pair.s)}),
+                            json!({"cfg": cfg_json(&pair.cfg), "p1": hex(&pair.p1), "p2": hex(&pair.p2), "s": hex(&pair.s), "sched": sched}),
                         ));
                     }
                 }
@@ -227,7 +245,7 @@ pub fn run(tier: Tier, seed: u64) -> i32 {
     }
     rep.finish(
         "pairs of streams P1+S / P2+S (prefix kinds: empty, short, long, zero-ending, ending in S's own head, ending in S's first byte repeated, FixedSize-aligned; every fifth pair from the F5 class: P1 empty and S = window ending non-zero + zero run) chunked by the real chunker; after the first boundary common to both at S-position >= window all later boundaries must be equal; non-trivial = distinct pairs that have such a boundary and >= 2 chunks after it",
-        &["metamorphic: no reference chunker involved; read fragmentation is covered by C09"],
+        &["metamorphic: no reference chunker involved; every second pair is also delivered under two different read schedules (short reads, Pending)"],
         json!({}),
         false,
     )
@@ -241,7 +259,7 @@ pub fn replay(v: &Value) -> i32 {
         unhex(r["p2"].as_str().unwrap()),
         unhex(r["s"].as_str().unwrap()),
     );
-    match judge_pair(&cfg, &p1, &p2, &s) {
+    match judge_pair_sched(&cfg, &p1, &p2, &s, r["sched"].as_u64().unwrap_or(0)) {
         Err(w) => {
             println!("replay: VIOLATED: {}", w);
             println!("VIOLATION property=C10 replay=(replayed)");
